@@ -131,6 +131,10 @@ pub fn evaluate_crash_images(e: &mut Exec) {
             if do_writer {
                 writer_step_count += 1;
             }
+            if e.out.sample_notes.len() < 4 && e.out.images_distinct % 97 == 1 {
+                let w = describe_boundary(&e.dir, k);
+                e.out.note(format!("crash image: boundary {k} ({w}), outcome {mode:?}, {} files, allowed commits {allowed:?}, writer step {do_writer}", img.len()));
+            }
             let ordered = !matches!(mode, TailMode::Subset(_));
             if let Err(msg) = evaluate_image(e, &img, &allowed, do_writer, k, ordered) {
                 let where_ = describe_boundary(&e.dir, k);
